@@ -65,7 +65,37 @@ func genC18(t *rapid.T) ModelCase {
 	mode := c18Modes[uniformN(t, len(c18Modes), "mode")]
 	// half of the cases are served by resource.DbResource over a memdb (templates, labels
 	// and static symbol contents as db entries, translations under their language)
-	return ModelCase{App: a, Inputs: genGuidedHistory(t, a, 12, mode.Kind == "persist"), Mode: mode, UseDb: chancePct(t, 50, "usedb")}
+	c := ModelCase{App: a, Mode: mode}
+	switch k := uniformN(t, 20, "resource"); {
+	case k < 9:
+		c.UseDb = true
+	case k < 14:
+		// gettext catalogues key a translation by the default-language text: every node's
+		// template and every label text is made unique and non-empty, and no translation
+		// is empty (an empty msgstr means "untranslated" to gettext)
+		c.UsePo = true
+		poFriendly(a)
+	}
+	c.Inputs = genGuidedHistory(t, a, 12, mode.Kind == "persist")
+	return c
+}
+
+// poFriendly makes the application expressible as gettext catalogues.
+func poFriendly(a *app.App) {
+	for i := range a.Nodes {
+		a.Nodes[i].Tpl = a.Nodes[i].Name + "> " + a.Nodes[i].Tpl
+	}
+	for k, v := range a.Menus {
+		a.Menus[k] = k + "= " + v
+	}
+	for i := range a.Trans {
+		for k, v := range a.Trans[i].Templates {
+			a.Trans[i].Templates[k] = "[" + a.Trans[i].Lang + "] " + k + "> " + v
+		}
+		for k, v := range a.Trans[i].Menus {
+			a.Trans[i].Menus[k] = a.Trans[i].Lang + ":" + k + "= " + v
+		}
+	}
 }
 
 // renameNode renames a node everywhere it is referred to.
@@ -136,6 +166,9 @@ func checkC18(c ModelCase) (o Outcome) {
 	}
 	if c.UseDb {
 		o.class("resource:db")
+	}
+	if c.UsePo {
+		o.class("resource:gettext")
 	}
 	o.Viol, o.Discard = v, discard
 	o.NonTrivial = f.langSwitches >= 1 && f.translatedRender && f.untranslatedRender && c.Mode.Kind == "persist"
